@@ -617,7 +617,7 @@ func genCase(rt *rapid.T) bcCase {
 
 func TestBroadcaster(t *testing.T) {
 	sec := vk.Sec("Broadcaster")
-	vk.Check(t, 5000, 300000, func(rt *rapid.T) {
+	vk.Check(t, 5000, 800000, func(rt *rapid.T) {
 		c := genCase(rt)
 		out, err := runBC(t, c)
 		if err != nil {
